@@ -90,7 +90,8 @@ def lang_cells(cells, col):
 
 def default_language(form):
     """settings sheet wins over the convert() argument; the documented fallback is the literal 'default'"""
-    return form.get("settings", {}).get("default_language") or form.get("args", {}).get("default_language") or "default"
+    v = form.get("settings", {}).get("default_language") or form.get("args", {}).get("default_language") or "default"
+    return " ".join(v.split()) or v      # (cleaned like the language names in column headers)
 
 
 def shadowed(cells, col, dlang):
